@@ -25,6 +25,7 @@ import XotModel.Lemmas.FspecPairRemove
 import XotModel.Lemmas.FspecPairAppend4
 import XotModel.Lemmas.FspecPairAfter3
 import XotModel.Lemmas.FspecPairBefore4
+import XotModel.Lemmas.FspecPairString
 import XotModel.Lemmas.FcreationSpec
 
 namespace XotModel.Props
@@ -720,6 +721,51 @@ theorem C05_selfmerge_keeps_text_witness :
      (g.append 0 2).1.content = [.node (.element 2) [.node (.text ['a', 'c', 'b']) []]] ∧
      (g.append 0 2).1 = specMoveP (.lastChildOf 0) 2 g ∧
      selfMerge g (.lastChildOf 0) 2 = true) := by
+  decide
+
+/-- **No move loses (or invents) character data** — for EVERY forest with the invariant, adjacent
+    text nodes under consolidation allowed (no `Forest.Normal`), every geometry, every successful
+    `append` / `prepend` / `insert_after` / `insert_before`: afterwards the non-text nodes are the
+    same, in the same document order, and each of them — every element, every document node, in
+    particular every ancestor of the place left and of the place of arrival, and every root — has
+    exactly the string value the plain ordered-tree move gives it (`plainMove`: cut the subtree,
+    graft it, merge nothing).  Whatever consolidation does to the text NODES (which of two merged
+    nodes survives, the pair merged at the old place, the node merged at the new place, the corner
+    `selfMerge`), the character DATA is where the move puts it.  (A parentless text node is not in
+    `strValues`; it is untouched unless it is the moved node, whose data then is part of the string
+    value of its new parent.)  Before xot c33de0a this was false in the corner `selfMerge`. -/
+theorem C05_move_keeps_character_data {f : Forest} (inv : f.Inv) :
+    (∀ p c, (f.append p c).2 = .ok →
+      (f.append p c).1.strValues = (plainMove (.lastChildOf p) c f).strValues) ∧
+    (∀ p c, (f.prepend p c).2 = .ok →
+      (f.prepend p c).1.strValues = (plainMove (.firstNormalChildOf p) c f).strValues) ∧
+    (∀ r c, (f.insertAfter r c).2 = .ok →
+      (f.insertAfter r c).1.strValues = (plainMove (.after r) c f).strValues) ∧
+    (∀ r c, (f.insertBefore r c).2 = .ok →
+      (f.insertBefore r c).1.strValues = (plainMove (.before r) c f).strValues) :=
+  ⟨fun _ _ hok => append_keeps_strValues inv hok, fun _ _ hok => prepend_keeps_strValues inv hok,
+   fun _ _ hok => insertAfter_keeps_strValues inv hok, fun _ _ hok => insertBefore_keeps_strValues inv hok⟩
+
+/-- The pair reading itself keeps the character data (what the four parts above are proved from). -/
+theorem C05_pair_spec_keeps_character_data {f : Forest} {dest : Dest} {c : Nat} {t : HTree} {q : Nat}
+    {vq : Value} {Lq : List HTree} (inv : f.Inv) (hgc : f.get? c = some t) (sq : SiteAt f q vq Lq)
+    (hqt : q ∉ HTree.handles t) (hvq : vq.isText = false) (hsite : dest.site f = some q) :
+    (specMoveP dest c f).strValues = (plainMove dest c f).strValues :=
+  specMoveP_strValues inv hgc sq hqt hvq hsite
+
+/-- Non-vacuity, in the corner: `<e>abcd</e>` as four text nodes, `insert_before(d, b)`,
+    `insert_after(c, b)`, `append(e, c)` (with `d` last: `b` and `d` merged, `c` last already),
+    `prepend(e, b)`: the element's string value is that of the plain move each time. -/
+example :
+    selfMergeWitness.inv = true ∧
+    (selfMergeWitness.insertBefore 4 2).2 = .ok ∧
+    (selfMergeWitness.insertBefore 4 2).1.strValues = [(0, ['a', 'c', 'b', 'd'])] ∧
+    (plainMove (.before 4) 2 selfMergeWitness).strValues = [(0, ['a', 'c', 'b', 'd'])] ∧
+    (selfMergeWitness.insertAfter 3 2).1.strValues = [(0, ['a', 'c', 'b', 'd'])] ∧
+    (selfMergeWitness.append 0 3).2 = .ok ∧ selfMerge selfMergeWitness (.lastChildOf 0) 3 = true ∧
+    (selfMergeWitness.append 0 3).1.strValues = [(0, ['a', 'b', 'd', 'c'])] ∧
+    (plainMove (.lastChildOf 0) 3 selfMergeWitness).strValues = [(0, ['a', 'b', 'd', 'c'])] ∧
+    (selfMergeWitness.prepend 0 2).1.strValues = [(0, ['b', 'a', 'c', 'd'])] := by
   decide
 
 /-! ### The convenience calls: a node creation followed by a move (`Model/Fcreation.lean`)
